@@ -44,8 +44,10 @@ def configs(tier):
     out = []
     for v in VARIANTS:
         routes = ('kwargs',) if v.endswith('second_layer') else ('kwargs', 'config', 'partial')
+        if v == 'sift_second_layer':
+            routes = ('kwargs', 'partial+args')      # a configured partial as sift_func: call-time sift_args still win
         for r in routes:
-            if q and r == 'partial' and v not in ('sift', 'mask_sift'):
+            if q and r == 'partial' and v not in ('sift', 'mask_sift'):      # ('partial+args' always runs)
                 continue
             n = 6 if (v == 'sift' or not q) else 5
             p = {'variant': v, 'route': r, 'N': n, 'optset': 'A', 'nens': 1 if q else 2, 'nphases': 1 if q else 2}
@@ -125,6 +127,9 @@ def call(h, variant, route, X, imf, env, ext, p):
     elif base in ('ensemble_sift', 'complete_ensemble_sift'):
         extra = dict(nensembles=p['nens'], max_imfs=2 if base == 'complete_ensemble_sift' else 1, ensemble_noise=0.25,
                      noise_mode='flip' if route != 'kwargs' else 'single')
+    if base == 'sift_second_layer' and route == 'partial+args':
+        return S.sift_second_layer(X, sift_func=S.get_config('sift').get_func(),
+                                   sift_args={'imf_opts': imf, 'envelope_opts': env, 'extrema_opts': ext, 'max_imfs': 2})
     if base == 'sift_second_layer':
         return S.sift_second_layer(X, sift_args={'imf_opts': imf, 'envelope_opts': env, 'extrema_opts': ext, 'max_imfs': 2})
     if base == 'mask_sift_second_layer':
